@@ -551,8 +551,6 @@ impl<T> Bucket<T> {
     unsafe fn dealloc(entries: *mut Entry<T>, len: u32, cols: u32) {
         let layout = Entry::<T>::layout(cols);
         let arr_layout = Self::layout(len, layout);
-        #[cfg(nucleo_verif_loom)]
-        crate::verif_loom::bucket_dealloc(entries as usize, arr_layout.size());
         for i in 0..len {
             let entry = Bucket::get(entries, i, cols);
             if *(*entry).active.get_mut() {
@@ -562,6 +560,8 @@ impl<T> Bucket<T> {
                 }
             }
         }
+        #[cfg(nucleo_verif_loom)]
+        crate::verif_loom::bucket_dealloc(entries as usize, arr_layout.size());
         std::alloc::dealloc(entries as *mut u8, arr_layout)
     }
 
